@@ -289,6 +289,54 @@ func runC03(c *core.Ctx) {
 		}
 	}
 
+	// ---------- C03.payload ----------
+	c.Rule("C03.payload", "a token's payload is read only for the type it belongs to: refmt fills exactly the field that goes with Token.Type and leaves the others as the previous token left them (the decoder reuses one token), so every read of Token.Int / Uint / Str / Bytes / Float64 / Bool / Length in a decoder function is reachable, within a token epoch, only over an edge on which Token.Type was found equal to the matching constant(s)", 12)
+	if tokType != nil {
+		payload := map[string][]string{"Int": {"TInt"}, "Uint": {"TUint"}, "Str": {"TString"}, "Bytes": {"TBytes"}, "Float64": {"TFloat64"}, "Bool": {"TBool"}, "Length": {"TMapOpen", "TArrOpen"}}
+		consts := enumConsts(tokType)
+		for _, tc := range consumers {
+			key := core.FuncKey(tc.fn)
+			nload := map[string]int{}
+			core.InstrsR(tc.fn, func(in ssa.Instruction) {
+				if g := in.Parent(); g != tc.fn && tc.others[g] {
+					return
+				}
+				u, ok := in.(*ssa.UnOp)
+				if !ok || u.Op != token.MUL {
+					return
+				}
+				for field, tnames := range payload {
+					if !tc.fieldLoad(u, field) {
+						continue
+					}
+					want := map[string]bool{}
+					for _, tn := range tnames {
+						if cv, ok := consts[tn]; ok {
+							want[cv.ExactString()] = true
+						}
+					}
+					established := core.EdgesWhere(tc.fn, func(r core.Rel) bool {
+						if r.Op != token.EQL || !tc.fieldLoad(r.X, "Type") {
+							return false
+						}
+						cv := core.ConstVal(r.Y)
+						return cv != nil && want[cv.ExactString()]
+					})
+					nload[field]++
+					ck := fmt.Sprintf("%s#read-%s/%d", key, field, nload[field])
+					bad := false
+					var wp []string
+					for _, e := range tc.epochStarts() {
+						if path, reached := tc.reachTyped(e, func(x ssa.Instruction) bool { return x == in }, established, tc.isStep); reached {
+							bad, wp = true, p.Witness(path)
+						}
+					}
+					c.Check(!bad, ck, p.Pos(u.Pos()), "read only where the token's type says the field is filled", "Token."+field+" is read on a path on which Token.Type was not found to be "+strings.Join(tnames, " / ")+": for a token of another type the field still holds what an earlier token left there (a huge unsigned value followed by a negative integer in one list decodes as the unsigned value twice)", wp...)
+				}
+			})
+		}
+	}
+
 	// ---------- C03.link ----------
 	c.Rule("C03.link", "every AssignLink in the decoder is dominated by: Token.Tag == the link-tag constant (the same constant the encoder stores into Token.Tag), DecodeOptions.AllowLinks true, len(Token.Bytes) >= 1, Token.Bytes[0] == 0; its argument wraps result 0 of cid.Cast(Token.Bytes[1:]) and the call is behind the nil edge of Cast's error", 6)
 	encTags := map[string]bool{}
